@@ -288,6 +288,320 @@ def gen_offset_us(rng):
     return rng.randint(-30 * 86_400_000_000, 30 * 86_400_000_000)
 
 
+# ---------------------------------------------------------------- directed generator: branch points and exact field boundaries
+#
+# Both SGP4 implementations are full of guards (`e0 > 1e-4`, perigee < 156 / 98 / 220 km, the 225-minute deep-space test,
+# `e < 1e-6`, `1 + cos i > 1.5e-12`, the Kepler loop exit) and of quantities that vanish *exactly* at a field boundary
+# (sin i0 at 0.0000 deg, e0 at 0000000, B* at 00000-0 ...).  A uniformly drawn TLE never sits on such a value, so each of them
+# is produced deliberately here: one "feature" per TLE on a base object of a chosen regime, thresholds from BOTH sides at the
+# resolution of the TLE field (the two adjacent field values between which the reference's own classification flips).
+
+def fmt_tle(p):
+    """TLE text of the exact field values in `p` (written here, not by beyond)"""
+    ndots = f"{p['ndot']: 0.8f}".replace("0.", ".")
+    l1 = (f"1 {p['norad']:05d}U {p['cospar']:<8} {p['year'] % 100:02d}{p['day']:012.8f} {ndots:>10} {exp_field(p['nddm'], p['ndde'])} "
+          f"{exp_field(p['bm'], p['be'])} 0 {p['elnb']:>4}")
+    l2 = (f"2 {p['norad']:05d} {p['inc']:8.4f} {p['raan']:8.4f} {p['e7']:07d} {p['argp']:8.4f} {p['ma']:8.4f} {p['n8'] / 1e8:11.8f}{p['revs']:>5}")
+    l1 += str(checksum(l1))
+    l2 += str(checksum(l2))
+    assert len(l1) == 69 and len(l2) == 69, (l1, l2)
+    return l1, l2
+
+
+def _a_km(n):
+    return (MU_KM / (n * 2 * math.pi / 86400) ** 2) ** (1 / 3)
+
+
+def base_fields(rng, regime):
+    """generic (non-boundary) field values of an object of the given regime: every angle away from 0/90/180/270/360, e well
+    above 1e-4, a drag term large enough for the drag corrections to be metres after a few days"""
+    bstar = rng.choice([-1, 1, 1, 1]) * rng.uniform(1.0, 9.9) * rng.choice([1e-5, 1e-4, 1e-4, 1e-3])
+    if regime == "near-drag":          # low, nearly circular, full model: the drag terms (C1, C3, C4, C5, D2-D4, delta_M, delta_ω) are metres within days
+        hp = rng.uniform(235.0, 420.0)
+        ha = hp + rng.uniform(3.0, 150.0)
+        a = RE_KM + (hp + ha) / 2
+        e = (ha - hp) / (2 * a)
+        n = math.sqrt(MU_KM / a ** 3) * 86400 / (2 * math.pi)
+        bstar = rng.choice([-1, 1, 1, 1, 1, 1]) * rng.uniform(0.5, 6.0) * 1e-4
+    elif regime == "near-full":        # period < 225 min, perigee >= 220 km: the domain of the native-vs-reference clause
+        n = rng.uniform(6.6, 15.6)
+        emax = 1 - (RE_KM + rng.choice([235.0, 260.0, 400.0])) / _a_km(n)
+        e = rng.uniform(0.002, max(0.003, min(emax, 0.6))) if rng.random() < 0.6 else rng.uniform(0.0005, max(0.0006, min(emax, 0.02)))
+    elif regime == "near-low":         # perigee below 220 km: the reference drops to its simplified drag model
+        n = rng.uniform(9.0, 16.45)
+        e = max(2e-4, 1 - (RE_KM + rng.uniform(60.0, 215.0)) / _a_km(n))
+    else:                              # deep space
+        n = rng.choice([rng.uniform(0.5, 6.2), rng.uniform(0.95, 1.05), rng.uniform(1.95, 2.06)])
+        e = rng.uniform(0.0005, min(0.9, 1 - (RE_KM + 300.0) / _a_km(n)))
+    be = math.floor(math.log10(abs(bstar))) + 1
+    year = rng.randint(1973, 2017)
+    return {"norad": rng.randint(1, 99999), "cospar": f"{rng.randint(57, 99):02d}{rng.randint(1, 999):03d}{rng.choice(['A', 'B', 'AB'])}",
+            "year": year, "day": round(rng.uniform(2.0, 364.0), 8), "ndot": round(rng.uniform(-1e-5, 2e-4), 8),
+            "nddm": rng.choice([0, 0, rng.randint(10000, 99999)]), "ndde": 0, "bm": int(round(bstar / 10.0 ** be * 1e5)), "be": be,
+            "elnb": rng.randint(0, 9999), "inc": round(rng.uniform(5.0, 85.0) if rng.random() < 0.7 else rng.uniform(95.0, 175.0), 4),
+            "raan": round(rng.uniform(10, 350), 4), "e7": max(1, min(int(e * 1e7), 9000000)), "argp": round(rng.uniform(10, 350), 4),
+            "ma": round(rng.uniform(10, 350), 4), "n8": int(round(n * 1e8)), "revs": rng.randint(0, 99999)}
+
+
+def _fix(p):
+    if p["nddm"]:
+        p["ndde"] = p["ndde"] or -6
+    else:
+        p["ndde"] = 0
+    if abs(p["bm"]) >= 100000:
+        p["bm"] = 99999 if p["bm"] > 0 else -99999
+    if p["bm"] == 0:
+        p["be"] = 0
+    return p
+
+
+def straddle(p, field, lo, hi, pred):
+    """the two adjacent values v, v+1 of the integer field `field` in [lo, hi] between which the reference's own
+    classification `pred(satrec)` flips (bisection; pred must differ at lo and hi), or None"""
+    def at(v):
+        q = dict(p)
+        q[field] = v
+        return bool(pred(reference(*fmt_tle(q))))
+    a, b = at(lo), at(hi)
+    if a == b:
+        return None
+    while hi - lo > 1:
+        mid = (lo + hi) // 2
+        if at(mid) == a:
+            lo = mid
+        else:
+            hi = mid
+    return lo, hi
+
+
+def _perigee_km(sat):
+    return sat.altp * RE_KM
+
+
+def _thr_perigee(h, by):
+    """perigee height exactly on either side of `h` km (the reference's own `perige`), varying the eccentricity or the mean motion field"""
+    def f(p, rng, side):
+        if by == "e":
+            p["n8"] = int(round(rng.uniform(7.0, 15.4) * 1e8))
+            pair = straddle(p, "e7", 1, 8999999, lambda s: _perigee_km(s) < h)
+            if pair:
+                p["e7"] = pair[side]
+        else:
+            p["e7"] = int(rng.uniform({220.0: 0.0002, 156.0: 0.004, 98.0: 0.013}[h], 0.03) * 1e7)
+            pair = straddle(p, "n8", 1400000000, 1650000000, lambda s: _perigee_km(s) < h)
+            if pair:
+                p["n8"] = pair[side]
+        return bool(pair)
+    return f
+
+
+def _thr_period(p, rng, side):
+    """un-Kozai'd period exactly on either side of 225 min (the reference's deep-space switch)"""
+    p["e7"] = int(rng.uniform(0.001, 0.47 if rng.random() < 0.8 else 0.55) * 1e7)
+    pair = straddle(p, "n8", 600000000, 680000000, lambda s: s.method == "d")
+    if pair:
+        p["n8"] = pair[1 - side]      # deep space is the LOW mean-motion side
+    return bool(pair)
+
+
+def _set(**kv):
+    def f(p, rng, side):
+        p.update(kv)
+        return True
+    return f
+
+
+def _leap_day366(p, rng, side):
+    p["year"] = rng.choice([1976, 1980, 1996, 2000, 2004, 2016])
+    p["day"] = [366.0, 366.99999999][side]
+    return True
+
+
+def _year_end(p, rng, side):
+    p["year"] = rng.choice([1973, 1975, 1999, 2001, 2017])
+    p["day"] = [365.99999999, 365.0][side]
+    return True
+
+
+# (name, setter(p, rng, side) -> bool, base regimes cycled over).  `side` in {0, 1}: below / above a threshold, or two variants.
+FEATURES = [
+    ("inc=0.0000", _set(inc=0.0), None), ("inc=0.0001", _set(inc=0.0001), None), ("inc=180.0000", _set(inc=180.0), None),
+    ("inc=179.9999", _set(inc=179.9999), None), ("inc=90.0000", _set(inc=90.0), None),
+    ("inc=63.4349(1-5cos2=0)", _set(inc=63.4349), None), ("inc=116.5651", _set(inc=116.5651), None),
+    ("inc=54.7356(3cos2-1=0)", _set(inc=54.7356), None), ("inc=125.2644", _set(inc=125.2644), None),
+    ("inc<0.2rad(11.4592)", lambda p, rng, side: p.update(inc=[11.4591, 11.4592][side]) or True, None),
+    ("e=0000000", _set(e7=0), ["near-drag", "near-full", "near-low", "deep"]), ("e=0000001", _set(e7=1), ["near-drag", "near-full", "deep"]),
+    ("e=0000009(<1e-6)", _set(e7=9), ["near-drag", "near-full"]), ("e=0000010(=1e-6)", _set(e7=10), ["near-drag", "near-full"]), ("e=0000011", _set(e7=11), ["near-drag", "near-full"]), ("e=0000050", _set(e7=50), ["near-drag", "near-full"]),
+    ("e=0000999", _set(e7=999), ["near-drag", "near-full", "near-low", "deep"]), ("e=0001000(=1e-4)", _set(e7=1000), ["near-drag", "near-full", "near-low", "deep"]),
+    ("e=0001001", _set(e7=1001), ["near-drag", "near-full", "near-low", "deep"]),
+    ("bstar=00000-0", _set(bm=0, be=0), None), ("bstar=10000-9(1e-10)", _set(bm=10000, be=-9), None), ("bstar=00001-9(1e-14)", _set(bm=1, be=-9), None),
+    ("bstar=99999-2(max)", _set(bm=99999, be=-2), ["near-full", "near-drag", "deep"]), ("bstar=-99999-3", _set(bm=-99999, be=-3), None),
+    ("ndot=0", _set(ndot=0.0), None), ("ndot=-.00012345", _set(ndot=-0.00012345), None), ("ndot=.99999999", _set(ndot=0.99999999), None),
+    ("nddot=00000-0", _set(nddm=0, ndde=0), None), ("nddot=99999-1", _set(nddm=99999, ndde=-1), None), ("nddot=-10000-9", _set(nddm=-10000, ndde=-9), None),
+    ("raan=0.0000", _set(raan=0.0), None), ("raan=359.9999", _set(raan=359.9999), None), ("raan=180.0000", _set(raan=180.0), None),
+    ("argp=0.0000", _set(argp=0.0), None), ("argp=359.9999", _set(argp=359.9999), None), ("argp=180.0000", _set(argp=180.0), None),
+    ("argp=90.0000", _set(argp=90.0), None), ("argp=270.0000", _set(argp=270.0), None), ("argp=45.0000(cos2w=0)", _set(argp=45.0), None),
+    ("ma=0.0000", _set(ma=0.0), None), ("ma=359.9999", _set(ma=359.9999), None), ("ma=180.0000", _set(ma=180.0), None),
+    ("ma=90.0000", _set(ma=90.0), None),
+    ("all-angles=0", _set(raan=0.0, argp=0.0, ma=0.0), None), ("all-angles=359.9999", _set(raan=359.9999, argp=359.9999, ma=359.9999), None),
+    ("epoch-day=001.00000000", _set(day=1.0), None), ("epoch-day=001.00000001", _set(day=1.00000001), None),
+    ("epoch-leap-day-366", _leap_day366, None), ("epoch-year-end-365", _year_end, None),
+    ("epoch-year=2000", _set(year=2000), None), ("epoch-year=1999", _set(year=1999), None), ("epoch-year=1973", _set(year=1973), None),
+    ("epoch-year=2017", _set(year=2017), None), ("epoch-feb29", lambda p, rng, side: p.update(year=[1996, 2016][side], day=[60.0, 60.5][side]) or True, None),
+    ("mean-motion=16.5", _set(n8=1650000000, e7=300), ["near-low"]), ("mean-motion=0.5", _set(n8=50000000), ["deep"]),
+    ("perigee=220km(by e)", _thr_perigee(220.0, "e"), ["near-full"]), ("perigee=220km(by n)", _thr_perigee(220.0, "n"), ["near-full"]),
+    ("perigee=156km(by e)", _thr_perigee(156.0, "e"), ["near-low"]), ("perigee=156km(by n)", _thr_perigee(156.0, "n"), ["near-low"]),
+    ("perigee=98km(by e)", _thr_perigee(98.0, "e"), ["near-low"]), ("perigee=98km(by n)", _thr_perigee(98.0, "n"), ["near-low"]),
+    ("period=225min", _thr_period, ["near-full"]),
+    ("e=max-for-perigee-220(kepler-loop)", lambda p, rng, side: p.update(n8=int(rng.uniform(6.5, 7.5) * 1e8), ma=[2.0, 358.0][side],
+                                                                           e7=int((1 - (RE_KM + 225.0) / _a_km(7.5)) * 1e7)) or True, ["near-full"]),
+    ("norad=00001,elnb=0,revs=0", _set(norad=1, elnb=0, revs=0), None), ("norad=99999,elnb=9999,revs=99999", _set(norad=99999, elnb=9999, revs=99999), None),
+]
+DEFAULT_REGIMES = ["near-drag", "near-full", "near-low", "deep"]
+
+
+def gen_directed(rng, k):
+    """k-th directed TLE: feature k mod len(FEATURES) on a base object whose regime and threshold side cycle with k // len(FEATURES);
+    every third round a second, randomly chosen feature is applied on top (pairs of boundaries).
+    returns (line1, line2, info) like gen_tle; info['feature'] names what was set"""
+    name, setter, regimes = FEATURES[k % len(FEATURES)]
+    rnd = k // len(FEATURES)
+    regimes = regimes or DEFAULT_REGIMES
+    regime = regimes[rnd % len(regimes)]
+    p = base_fields(rng, regime)
+    names = []
+    if rnd % 3 == 2:
+        n2, s2, _r = FEATURES[rng.randrange(len(FEATURES))]
+        if n2.split("=")[0].split("(")[0] != name.split("=")[0].split("(")[0] and s2(p, rng, rng.randrange(2)):
+            names.append(n2)
+    ok = setter(p, rng, rnd % 2)
+    names.insert(0, name + ("" if ok else "(threshold-not-reachable)"))
+    l1, l2 = fmt_tle(_fix(p))
+    info = info_of_lines(l1, l2)
+    info.update(regime="directed-" + regime, feature="+".join(names), side=rnd % 2, bstar=p["bm"] * 10.0 ** (p["be"] - 5))
+    return l1, l2, info
+
+
+def gen_directed_offsets(rng):
+    """dates for a directed TLE: one well before and one well after epoch (drag and secular terms have grown), sometimes a boundary of the +-30 d window"""
+    day = 86_400_000_000
+    a = -rng.randint(1 * day, 30 * day) if rng.random() < 0.85 else rng.choice([-30 * day, -1, 0])
+    b = rng.randint(1 * day, 30 * day) if rng.random() < 0.85 else rng.choice([30 * day, 1, 0])
+    return [a, b]
+
+
+class BranchProbe:
+    """Which side of every guard of the native model a call took — observed on the REAL code, nothing modified: the `if`,
+    conditional expressions and `for … break` loops of `Sgp4Beta.orbit` (setter) and `Sgp4Beta.propagate` are read from the
+    AST of the repository's sgp4beta.py; a line tracer installed around the call records the executed lines (an `if` was
+    taken iff the first line of its body ran) and the local variables at return (conditional expressions are re-evaluated on
+    them, the loop counter tells how the loop was left)."""
+
+    def __init__(self, which="native"):
+        if which == "native":
+            tree, _model, setter, prop = beta_source()
+            self.file = os.path.realpath(BETA_PY)
+        else:       # the default propagator: beyond/propagators/sgp4.py, class Sgp4
+            self.file = os.path.realpath(os.path.join(core.REPO, "beyond", "propagators", "sgp4.py"))
+            cls = py2lean.find_function(ast.parse(open(self.file).read()), "Sgp4")
+            setter = next(n for n in cls.body if isinstance(n, ast.FunctionDef) and n.name == "orbit" and any("setter" in ast.unparse(d) for d in n.decorator_list))
+            prop = next(n for n in cls.body if isinstance(n, ast.FunctionDef) and n.name == "propagate")
+        self.sites = []          # (function, kind, text, test line, first body line, code / loop variable)
+        for fn, fname in ((setter, "setter"), (prop, "propagate")):
+            for node in ast.walk(fn):
+                if isinstance(node, ast.If):
+                    brk = len(node.body) == 1 and isinstance(node.body[0], ast.Break)
+                    self.sites.append((fname, "loop-break" if brk else "if", ast.unparse(node.test), node.test.lineno, node.body[0].lineno, None))
+                elif isinstance(node, ast.IfExp):
+                    self.sites.append((fname, "ifexp", ast.unparse(node.test), node.test.lineno, None, compile(ast.Expression(node.test), "<guard>", "eval")))
+                elif isinstance(node, ast.For) and isinstance(node.target, ast.Name):
+                    self.sites.append((fname, "for", "for " + ast.unparse(node.target) + " in " + ast.unparse(node.iter), node.lineno, None, node.target.id))
+        self.codes = {"orbit": "setter", "propagate": "propagate"}
+        self.lines = {}
+        self.locals = {}
+
+    def _tracer(self, frame, event, arg):
+        if event != "call" or os.path.realpath(frame.f_code.co_filename) != self.file or frame.f_code.co_name not in self.codes:
+            return None
+        fname = self.codes[frame.f_code.co_name]
+        if fname == "setter" and frame.f_code.co_argcount != 2:
+            return None          # the getter
+        seen = self.lines.setdefault(fname, set())
+
+        def local(frame, event, arg):
+            if event == "line":
+                seen.add(frame.f_lineno)
+            elif event == "return":
+                self.locals[fname] = (dict(frame.f_locals), frame.f_globals)
+            return local
+        return local
+
+    @contextlib.contextmanager
+    def watch(self):
+        import sys
+        self.lines, self.locals = {}, {}
+        old = sys.gettrace()
+        sys.settrace(self._tracer)
+        try:
+            yield self
+        finally:
+            sys.settrace(old)
+
+    def outcomes(self):
+        """{guard label: 'T' | 'F'} for the guards reached during the watched calls"""
+        res = {}
+        for fname, kind, text, tline, bline, code in self.sites:
+            if fname not in self.lines or tline not in self.lines[fname]:
+                continue
+            if kind == "for":
+                loc, _g = self.locals.get(fname, ({}, {}))
+                if isinstance(loc.get(code), int):
+                    res[f"{fname}: {text}: passes"] = loc[code] + 1
+                continue
+            if kind == "ifexp":
+                loc, glob = self.locals.get(fname, ({}, {}))
+                try:
+                    v = bool(eval(code, glob, loc))
+                except Exception:
+                    continue
+            else:
+                v = bline in self.lines[fname]
+            res[f"{fname}: {text}"] = "T" if v else "F"
+        return res
+
+    def labels(self):
+        """the two-sided guards: every `if`, conditional expression and loop exit"""
+        return [f"{fname}: {text}" for fname, k, text, *_ in self.sites if k != "for"]
+
+
+_probes = {}
+
+
+def probe(which):
+    if which not in _probes:
+        _probes[which] = BranchProbe(which)
+    return _probes[which]
+
+
+def tally_branches(out, prefix, outcomes, extra=None):
+    for k, v in outcomes.items():
+        out.tally(f"{prefix}[{k}]={v}")
+    for k, v in (extra or {}).items():
+        out.tally(f"{prefix}[{k}]={v}")
+
+
+def reference_branches(sat):
+    """the reference's own branch decisions for a satellite record (its initialisation), read from the record"""
+    perige = sat.altp * RE_KM
+    b = {"ref: method": sat.method, "ref: isimp": sat.isimp, "ref: ecco > 1.0e-4": sat.ecco > 1.0e-4,
+         "ref: perige": "<98" if perige < 98 else "<156" if perige < 156 else "<220" if perige < 220 else ">=220",
+         "ref: fabs(cosio+1.0) > 1.5e-12": abs(math.cos(sat.inclo) + 1.0) > 1.5e-12}
+    if sat.method == "d":
+        b["ref: irez"] = sat.irez
+        b["ref: lyddane(inclo < 0.2)"] = sat.inclo < 0.2
+    return b
+
+
 @contextlib.contextmanager
 def eop(tai_utc=37.0, ut1_utc=-0.1234567):
     """constant Earth-orientation record for every date (harness process only): TAI-UTC = 37 s so that the UTC/TAI/TT/GPS
@@ -405,8 +719,11 @@ def check_tle(out, rng, l1, l2, info, offsets):
     from beyond.dates import Date, timedelta
     from beyond.propagators.sgp4beta import Sgp4Beta
     inp0 = {"line1": l1, "line2": l2}
+    name = info.get("name")
+    if name:
+        inp0["name"] = name
     try:
-        tle = Tle(l1 + "\n" + l2)
+        tle = Tle((name + "\n" if name else "") + l1 + "\n" + l2)
         orb = tle.orbit()
     except Exception as e:
         out.count(key=(l1, l2), kind="tle-rejected")
@@ -416,9 +733,12 @@ def check_tle(out, rng, l1, l2, info, offsets):
     deep = sat.method == "d"
     full = (not deep) and sat.isimp == 0
     model = "sdp4" if deep else ("sgp4-full" if full else "sgp4-simple")
+    tally_branches(out, "branch", reference_branches(sat))
+    if info.get("feature"):
+        out.tally("directed-feature=" + info["feature"].split("+")[0] + f"/side{info.get('side', 0)}/" + model)
     # the wrapper regenerates the TLE text from the orbit (Tle.from_orbit): that must succeed for the propagator to exist at all
     try:
-        regen = Tle.from_orbit(orb).text.splitlines()
+        regen = Tle.from_orbit(orb).text.splitlines()[-2:]
     except Exception as e:
         out.count(key=(l1, l2), kind="wrapper-regen", result="raises")
         out.fail(regen_family(l1, l2, e), "default SGP4 propagator cannot be initialised: regenerating the TLE text of a valid TLE raises (the reference accepts the original lines)",
@@ -439,7 +759,9 @@ def check_tle(out, rng, l1, l2, info, offsets):
             continue
         # 1. the default propagator equals the reference on the original lines at that instant
         try:
-            got = [float(x) for x in orb.propagate(date)]
+            with probe("wrapper").watch() as pw:
+                got = [float(x) for x in orb.propagate(date)]
+            tally_branches(out, "branch-wrapper", pw.outcomes())
         except Exception as e:
             if tiny_fields(l1) and regen != [l1, l2]:
                 out.fail(regen_family(l1, l2, e), "default SGP4 propagator cannot be initialised: the TLE text it regenerates for a valid TLE is rejected by the sgp4 library (the reference accepts the original lines)",
@@ -471,9 +793,13 @@ def check_tle(out, rng, l1, l2, info, offsets):
             continue
         # 4. native implementation: same state as the reference theory within 1 cm where the reference uses its full near-Earth model
         nat = Sgp4Beta()
-        nat.orbit = orb
         try:
-            gotn = [float(x) for x in nat.propagate(date)]
+            with probe("native").watch() as pn:
+                nat.orbit = orb
+                gotn = [float(x) for x in nat.propagate(date)]
+            if full:
+                tally_branches(out, "branch-native-in-domain", pn.outcomes(), {"C3 == 0 and e0 > 1e-4": bool(nat._init.C3 == 0 and info["e"] > 1e-4),
+                                                                                "bstar == 0": float(orb.bstar) == 0.0})
         except Exception as e:
             if full:
                 out.fail(family_of(info, off, "native-raises-" + type(e).__name__), "native SGP4 raises inside its domain", inp, observed=repr(e))
@@ -540,8 +866,20 @@ def oracle(ctx, widened):
     N = 2500 if (widened or ctx.thorough) else 220
     with eop():
         pinned_cases(out, rng)
+        # every branch point / exact field boundary deliberately, thresholds from both sides (gen_directed)
+        for k in range((24 if (widened or ctx.thorough) else 4) * len(FEATURES)):
+            l1, l2, info = gen_directed(rng, k)
+            if rng.random() < 0.15:
+                info["name"] = rng.choice(["ISS (ZARYA)", "0 VANGUARD 1", "X"])
+            offsets = []
+            for off in gen_directed_offsets(rng):
+                label = rng.choice(LABELS)
+                offsets.append((off, label, rng.choice([x for x in LABELS if x != label])))
+            check_tle(out, rng, l1, l2, info, offsets)
         for _ in range(N):
             l1, l2, info = gen_tle(rng)
+            if rng.random() < 0.1:
+                info["name"] = rng.choice(["ISS (ZARYA)", "0 VANGUARD 1", "X"])
             offsets = []
             for _k in range(2):
                 label = rng.choice(LABELS)
@@ -558,6 +896,8 @@ def replay(f):
     i = f["input"]
     l1, l2 = i["line1"], i["line2"]
     info = info_of_lines(l1, l2)
+    if i.get("name"):
+        info["name"] = i["name"]
     label = i.get("label", "UTC")
     offs = [(i.get("offset_us", 0), label, o) for o in LABELS if o != label]
     with eop():
